@@ -9,7 +9,7 @@ ID = "C02"
 TITLE = "One linear order is shared by polygons, centres, flattened data and selectors"
 MC = {"quick": [("MC_Cells", "MC_C02.cfg", 8)], "thorough": [("MC_Cells", "MC_C02_thorough.cfg", 16)]}
 TRACE = ("Trace_Cells", "Trace_Cells.cfg")
-REQUIRED = ["held-memory", "held-file", "held-dask", "held-emsopen", "Polygons", "Centres", "Ravel", "SelectIndex", "Query", "holes", "hit", "tie",
+REQUIRED = ["held-memory", "held-file", "held-dask", "held-emsopen", "Polygons", "Centres", "Ravel", "SelectIndex", "Query", "SpatialIndex", "holes", "hit", "tie",
             "cf1d", "cf2d", "shoc_simple", "shoc_standard", "arakawa", "ugrid",
             "kind-face", "kind-left", "kind-back", "kind-node", "kind-edge"]
 RULE = ("one case = one dataset with skewed lattice geometry and tagged variables (grid dimensions in shuffled "
@@ -44,6 +44,8 @@ def cases(tier: str, seed: int) -> list[dict]:
             ev += [{"a": "SelectIndex", "n": n, "kind": kind} for n in ns]
         for p in GW.probe_points(w, rng, limit=25 if tier == "quick" else 60):
             ev.append({"a": "Query", "p": p})
+            if len(ev) % 3 == 0:
+                ev.append({"a": "SpatialIndex", "p": p})      # the older (deprecated, still public) spatial_index accessor
         out.append({"src": "gen", "world": w, "events": ev})
     return out
 
